@@ -122,30 +122,28 @@ Theorem C02_classification_has_no_stale_entry : entries_live = true.
 Proof. exact entries_are_live. Qed.
 Print Assumptions C02_classification_has_no_stale_entry.
 
-(* the sites classified reachable are exactly the three behind the known findings *)
-Theorem C02_reachable_sites :
-  map fst reachable_sites = ["ParseProgram"; "fromNative"; "*interp.setSpecial"]%string.
+(* no site is classified reachable any more (the three that were -- ParseProgram's re-panic,
+   fromNative, setSpecial's MustCompile -- are protected by the repairs of F-C02-1, 3, 4, 7) *)
+Theorem C02_reachable_sites : reachable_sites = [].
 Proof. exact reachable_sites_are. Qed.
 Print Assumptions C02_reachable_sites.
 
-(* ---- 4. the one run-time MustCompile: setSpecial(RS) with a one-byte separator ------------ *)
+(* ---- 4. the one run-time MustCompile: setSpecial(RS) with a one-byte separator (was F-C02-1, repaired) ---- *)
 
-Definition C02_rs_full_statement : Prop := forall rs, (length rs <= 1)%nat -> set_rs_short rs <> RsPanic.
+(* no empty or one-byte record separator -- any of the 256 bytes -- makes setSpecial panic *)
+Theorem C02_rs_one_byte_never_panics : forall rs, (length rs <= 1)%nat -> set_rs_short rs = RsOk.
+Proof. exact rs_one_byte_never_panics. Qed.
+Print Assumptions C02_rs_one_byte_never_panics.
 
-(* false on the pinned tree: RS = "\xff" (finding F-C02-1) *)
-Theorem C02_rs_one_byte_refuted : ~ C02_rs_full_statement.
-Proof. exact rs_one_byte_refuted. Qed.
-Print Assumptions C02_rs_one_byte_refuted.
+(* the utf8.ValidString test is what prevents it: MustCompile(QuoteMeta(b)) alone panics exactly
+   on the non-ASCII bytes *)
+Theorem C02_rs_guard_is_needed : forall b, must_compile_quoted [b] = RsPanic <-> ~ (0 <= b < 128).
+Proof. exact must_compile_quoted_exact. Qed.
+Print Assumptions C02_rs_guard_is_needed.
 
-(* true for ASCII separators, and the guard is exact *)
-Theorem C02_rs_one_byte_partial : forall rs, (length rs <= 1)%nat ->
-  (forall b, In b rs -> 0 <= b < 128) -> set_rs_short rs = RsOk.
-Proof. exact rs_one_byte_partial. Qed.
-Print Assumptions C02_rs_one_byte_partial.
-
-Theorem C02_rs_one_byte_exact : forall b, set_rs_short [b] = RsPanic <-> ~ (0 <= b < 128).
-Proof. exact rs_one_byte_exact. Qed.
-Print Assumptions C02_rs_one_byte_exact.
+(* the former witness: RS = "\xff" *)
+Example C02_rs_former_witness : set_rs_short [255] = RsOk.
+Proof. reflexivity. Qed.
 
 (* ---- 4b. CSV/TSV input: $i after `getline var` (was finding F-C02-8, repaired) ------------------ *)
 
@@ -227,19 +225,28 @@ Theorem C02_prim_resolver_no_panic : forall (pi : oracle) (P : program),
 Proof. exact C16_no_panic. Qed.
 Print Assumptions C02_prim_resolver_no_panic.
 
-From Verif Require Import Model.Native Proofs.NativeCheck Proofs.NativeCall Properties.C17.
+From Coq Require Import Permutation.
+From Verif Require Import Model.Native Proofs.NativeCheck Proofs.NativeCall Proofs.NativeRun Properties.C17.
 
-(* calls of native Go functions with checked signatures and predeclared parameter/result types
-   never panic in callNative  [C17; without the type guard: F-C17-4, F-C17-5] *)
+(* calls of native Go functions whose signature checkNativeFunc accepts (user-defined types of the
+   documented kinds included) never panic in callNative  [C17] *)
 Theorem C02_prim_native_call_no_panic : forall pf pp ff tbl idx s body args,
-  nindex tbl idx = NOk (s, body) -> wf_sig s -> acceptable_sig s = true ->
-  params_safe s = true -> results_safe s = true -> body_ok s body ->
+  nindex tbl idx = NOk (s, body) -> wf_sig s -> acceptable_sig s = true -> body_ok s body ->
   (variadic s = true \/ zlen args <= zlen (params s)) ->
   exists r, call_native pf pp ff tbl idx args = NOk r.
 Proof.
-  intros pf pp ff tbl idx s body args H1 H2 H3 H4 H5 H6 H7.
-  destruct (C17_valid_sig_no_panic_partial pf pp ff tbl idx s body args H1 H2 H3 H4 H5 H6 H7) as [r [Hr _]].
+  intros pf pp ff tbl idx s body args H1 H2 H3 H6 H7.
+  destruct (C17_valid_sig_no_panic pf pp ff tbl idx s body args H1 H2 H3 H6 H7) as [r [Hr _]].
   exists r. exact Hr.
 Qed.
 Print Assumptions C02_prim_native_call_no_panic.
 
+(* whatever values Go's typing allows in Funcs (nil, non-functions, functions of any shape), in
+   both iteration orders, for every called name and argument list: parse + set-up + call never
+   panic  [C17] *)
+Theorem C02_prim_funcs_values_never_panic : forall pf pp ff funcs_r funcs_i awk name args,
+  NoDup (map fst funcs_i) -> Permutation.Permutation funcs_r funcs_i ->
+  (forall n f, In (n, f) funcs_i -> go_typed f) ->
+  forall k, run pf pp ff funcs_r funcs_i awk name args <> OPanic k.
+Proof. exact C17_never_panics. Qed.
+Print Assumptions C02_prim_funcs_values_never_panic.
